@@ -1,5 +1,5 @@
 //@unit sm2_fp
-//@serves C03 C04 C05 C06 C11 C15 C19
+//@serves C03 C04 C05 C06 C11 C15 C19 C20
 //@source gm-sm2/src/fields/fp64.rs
 //@include-spec sm2_math
 //@section spec
